@@ -51,6 +51,9 @@ Check(t) ==
          \* the normal field of a boundary after binding is that of the original boundary at the joint rows
          ELSE IF pe.normals_exc # "" THEN <<"normal-after-binding-failed", "", Cardinality(J)>>
          ELSE IF \E i \in DOMAIN pe.normals : ~SeqClose(pe.normals[i], pe.normals_full[i], 3) THEN <<"normal-after-binding", "", Cardinality(J)>>
+         \* (last: an acknowledged deviation) the volume the user set on D is the volume of D(**v)
+         ELSE IF pe.uservol_pe_exc = "" /\ \E i \in DOMAIN pe.uservol_pe : pe.uservol_pe[i] # 5 * 1024 THEN <<"user-set-volume-lost-by-binding", "user_volume_lost_by_binding", Cardinality(J)>>
+         ELSE IF pe.uservol_pe_exc \notin {"", "none"} THEN <<"user-set-volume-after-binding-failed", "", Cardinality(J)>>
          ELSE <<"ok", "", Cardinality(J)>>
 Init == tid \in 1..Len(Traces) /\ LET r == Check(Traces[tid]) IN verdict = r[1] /\ dev = r[2] /\ judged = r[3]
 Next == FALSE /\ UNCHANGED <<tid, verdict, dev, judged>>
